@@ -32,7 +32,12 @@ MUTANTS = {
     "noclose": ("OneResponsePerRequest",),
     "keepresp": ("DeliveredExactlyOnce",),
     "numreset": ("TaNumbersIncrease",),
+    # (with the child whose requests arrive one at a time: a response
+    # replaces what still waits for the child)
+    "dropresp": ("OneResponsePerRequest",),
 }
+# mutants that need the configuration with the one-request-at-a-time child
+REMOTE_MUTANTS = {"dropresp"}
 
 COVERAGE_RE = re.compile(
     r"^<(\w+) line \d+, col \d+ to line \d+, col \d+ of module \w+"
@@ -47,12 +52,15 @@ def action_coverage(out):
 
 
 def model_runs(chk, tier):
-    jobs = [("main", "MC_TaExchange.cfg", 3, 900, True)]
+    jobs = [("main", "MC_TaExchange.cfg", 3, 900, True),
+            ("remote", "MC_TaExchange_remote.cfg", 3, 900, True)]
     if tier == "thorough":
         jobs.append(("big", "MC_TaExchange_big.cfg", 6, 2400, False))
     for mutant in MUTANTS:
         cfg = f"MC_TaExchange_mut_{mutant}.cfg"
-        with open(os.path.join(vlib.SPEC, "MC_TaExchange.cfg")) as f:
+        base = ("MC_TaExchange_remote.cfg" if mutant in REMOTE_MUTANTS
+                else "MC_TaExchange.cfg")
+        with open(os.path.join(vlib.SPEC, base)) as f:
             text = f.read().replace('Mutant = "none"',
                                     f'Mutant = "{mutant}"')
         path = os.path.join(chk.out, cfg)
@@ -93,7 +101,7 @@ def model_runs(chk, tier):
         vlib.log(f"TLC {cfg}: {res.distinct} distinct states, "
                  f"{res.generated} transitions checked, no violation")
     needed = ["MCSign", "MCResp", "MCMakeReq", "MCGetReq", "MCOther",
-              "MCReassoc", "MCSync", "MCWants"]
+              "MCReassoc", "MCSync", "MCWants", "MCRemote"]
     missing = [a for a in needed
                if chk.cov["actions_covered"].get(a, 0) == 0]
     if missing:
@@ -232,6 +240,12 @@ def account(chk, segs):
                         st["signer_refused"].get(cls, 0) + 1
             elif e == "MakeReq" and ev["res"] != "ok":
                 st["make_request_refused_open"] += 1
+            elif e == "SyncOne":
+                st["remote_requests"] = st.get("remote_requests", 0) + 1
+                if prev is not None and len(
+                        prev.get("resp", {}).get("rc", [])) >= 2:
+                    st["remote_two_responses_waiting"] = st.get(
+                        "remote_two_responses_waiting", 0) + 1
             elif e == "Sync":
                 for c in ("ca1", "ca2"):
                     st["deliveries"] += len(
@@ -255,6 +269,9 @@ def require_exercised(st):
         problems.append("no signer re-initialisation")
     if st["other_signer_responses"] < 1:
         problems.append("no response of the other signer instance")
+    if st.get("remote_two_responses_waiting", 0) < 1:
+        problems.append("never two responses waiting for the child whose "
+                        "requests arrive one at a time")
     if st["make_request_refused_open"] < 1:
         problems.append("no second request while one is open")
     need_proxy = ["orig:by=g1:none-open", "orig:by=g1:other-nonce",
@@ -357,6 +374,27 @@ ASSUMPTIONS = [
 ]
 
 
+def _a(n, **kw):
+    d = {"a": n}
+    d.update(kw)
+    return d
+
+
+REMOTE_DIRECTED = [
+    _a("RWants", c="rc", r="i:ka"), _a("SyncOne", c="rc", r="i:ka"),
+    _a("MakeReq"), _a("Sign", s="S1", i=1, v="orig", k=1),
+    _a("Resp", i=2, v="orig", k=1),
+    _a("RWants", c="rc", r="i:kb"), _a("SyncOne", c="rc", r="i:kb"),
+    _a("MakeReq"), _a("Sign", s="S1", i=3, v="orig", k=1),
+    _a("Resp", i=4, v="orig", k=1),
+    _a("SyncOne", c="rc", r="i:kb"), _a("SyncOne", c="rc", r="i:ka"),
+    _a("RWants", c="rc", r="r:ka"), _a("SyncOne", c="rc", r="r:ka"),
+    _a("SyncOne", c="rc", r="r:ka"),
+    _a("MakeReq"), _a("Sign", s="S1", i=5, v="orig", k=1),
+    _a("Resp", i=6, v="orig", k=1), _a("SyncOne", c="rc", r="r:ka"),
+]
+
+
 def run(tier, seed):
     chk = vlib.Check(PID, LEVEL, tier, seed)
     chk.assumptions = ASSUMPTIONS
@@ -372,6 +410,16 @@ def run(tier, seed):
     chk.cov["exhaustive_short_generated"] = len(short)
     chk.rng.shuffle(short)
     short = short[:300] if tier == "quick" else short[:7000]
+    # the child whose requests reach the proxy one at a time (a response
+    # can still wait for it while another of its requests is answered):
+    # generated behaviours and one directed one
+    remote = vlib.generate_behaviours(
+        "MC_TaExchange_gen", "MC_TaExchange_gen_remote.cfg", chk.out,
+        num=60 if tier == "quick" else 600, depth=36, seed=seed + 17,
+        timeout=900)
+    remote.append({"actions": REMOTE_DIRECTED})
+    chk.cov["remote_child_behaviours"] = len(remote)
+    behaviours = behaviours + remote
     for i, b in enumerate(behaviours + short):
         b["id"] = i
         b["keyoff"] = (seed * 211) % 1400
